@@ -6,7 +6,10 @@ mode=frame : runs a history of add_noise / add_noise_from_obs / zero_data / add_
              plus an independent sigma-clipped reference estimate of the data.
 mode=stats : statistical acceptance test of the generated noise (moments within analytically derived bands).
 mode=snr   : get_intensity / get_snr values.
-mode=volt  : noise-level bookkeeping of DataStream / Antenna / MultiAntennaArray."""
+mode=volt  : noise-level bookkeeping of DataStream / Antenna / MultiAntennaArray.
+mode=deftab: add_noise_from_obs with NO tables given (the bundled observation table, scaled to the frame's dt), several
+             draws in one interpreter on frames of different resolutions: every draw's parameters must be the rows the
+             generator picked of the bundled table times dt/obs_dt, whatever was drawn before."""
 import sys, json, math
 import numpy as np
 import setigen as stg
@@ -26,7 +29,8 @@ class Rec(np.random.Generator):
         finally:
             self._in_choice = False
         arr = np.asarray(a)
-        self.log.append(dict(kind="choice", n=int(arr.shape[0]), idx=self._idx, value=float(r).hex(), table=[float(x).hex() for x in arr.ravel()]))
+        self.log.append(dict(kind="choice", n=int(arr.shape[0]), idx=self._idx, value=float(r).hex(),
+                             table=([float(x).hex() for x in arr.ravel()] if arr.size <= 1000 else None)))
         return r
 
     def integers(self, *a, **kw):
@@ -241,9 +245,78 @@ def run_volt(c):
     return out
 
 
+OBS_DT = 1.4316557653333333
+
+
+def run_deftab(c):
+    import os
+    asset = np.load(os.path.join(os.path.dirname(stg.__file__), "assets", "sample_noise_params.npy"))
+    frames = []
+    for f in c["frames"]:
+        rng = Rec(f["seed"])
+        frames.append((stg.Frame(fchans=f["F"], tchans=f["T"], df=fh(f["df"]), dt=fh(f["dt"]), fch1=6e9, seed=rng), rng))
+    fails = []
+    rows = []
+
+    def near(x, y):
+        return abs(x - y) <= 1e-12 * max(abs(x), abs(y))
+    for k, d in enumerate(c["draws"]):
+        fr, rng = frames[d["frame"]]
+        if d["zero"]:
+            fr.zero_data()
+        rng.log = []
+        before = fr.data.copy()
+        was_empty = (fr.noise_mean == 0 and fr.noise_std == 0)
+        ret = fr.add_noise_from_obs(share_index=d["share"], noise_type="chi2" if d["type"] == "chi2" else "gaussian")
+        sc = fr.dt / OBS_DT
+        where = "draw %d (%s%s, frame %d with dt=%r%s)" % (k, d["type"], "" if d["type"] == "chi2" else (", shared index" if d["share"] else ", independent indices"),
+                                                          d["frame"], fr.dt, ", after zero_data" if d["zero"] else "")
+        picks = [e for e in rng.log if e["kind"] in ("choice", "integers")]
+        arrs = [e for e in rng.log if e["kind"] in ("chisquare", "normal")]
+        if any(e.get("n", e.get("args", [0])[-1]) != asset.shape[0] for e in picks) or len(arrs) != 1 or any(e["idx"] is None for e in picks):
+            fails.append(["default-table-requests", "%s: requests %s do not pick indices of the %d-row bundled table / one array draw" %
+                          (where, [(e["kind"], e.get("n", e.get("args"))) for e in rng.log], asset.shape[0])])
+            continue
+        if not np.array_equal(fr.data, before + ret):
+            fails.append(["not-additive", "%s: data after != data before + returned noise" % where])
+        draws = np.array([fh(x) for x in arrs[0]["draws"]]).reshape(np.shape(ret))
+        if d["type"] == "chi2":
+            if len(picks) != 1:
+                fails.append(["default-table-requests", "%s: %d index picks for chi-squared noise" % (where, len(picks))]); continue
+            want = asset[picks[0]["idx"], 0] * sc
+            got = fh(picks[0]["value"])
+            if not near(got, want) or not np.allclose(ret, draws * want / fr.chi2_df, rtol=1e-11, atol=0):
+                fails.append(["default-table-entry", "%s: mean used %r, row %d of the bundled table scaled by dt/obs_dt is %r" % (where, got, picks[0]["idx"], want)])
+            pm = want
+        else:
+            if d["share"]:
+                if len(picks) != 1:
+                    fails.append(["default-table-share-index", "%s: %d index picks with share_index" % (where, len(picks))]); continue
+                im = i_s = imn = picks[0]["idx"]
+            else:
+                if len(picks) != 3:
+                    fails.append(["default-table-requests", "%s: %d index picks for three independent tables" % (where, len(picks))]); continue
+                im, i_s, imn = [e["idx"] for e in picks]
+            ws = asset[i_s, 1] * sc
+            wm = asset[im, 0] * sc if d["share"] else max(asset[im, 0] * sc, ws)
+            wmn = asset[imn, 2] * sc
+            loc, scale = fh(arrs[0]["loc"]), fh(arrs[0]["scale"])
+            if not (near(loc, wm) and near(scale, ws)):
+                fails.append(["default-table-share-index" if d["share"] else "default-table-entry",
+                              "%s: gaussian drawn with (%r, %r); rows (%d, %d) of the bundled table scaled by dt/obs_dt give (%r, %r)" % (where, loc, scale, im, i_s, wm, ws)])
+            if not np.allclose(ret, np.maximum(draws, wmn), rtol=1e-11, atol=0):
+                fails.append(["default-table-floor", "%s: returned noise is not max(draws, floor) for floor = row %d of the bundled table scaled = %r (min returned %r)" %
+                              (where, imn, wmn, float(np.min(ret)))])
+            pm = wm
+        if was_empty and not near(float(fr.noise_mean), pm):
+            fails.append(["first-noise-params", "%s on a frame without noise: recorded noise_mean %r, the table entry used is %r" % (where, float(fr.noise_mean), pm)])
+        rows.append(dict(idx=[e["idx"] for e in picks], scale=sc))
+    return dict(fails=fails, rows=rows)
+
+
 def main():
     payload = json.load(sys.stdin)
-    fn = dict(frame=run_frame, stats=run_stats, snr=run_snr, volt=run_volt)[payload["mode"]]
+    fn = dict(frame=run_frame, stats=run_stats, snr=run_snr, volt=run_volt, deftab=run_deftab)[payload["mode"]]
     json.dump([fn(c) for c in payload["cases"]], open(sys.argv[1], "w"))
 
 
